@@ -543,8 +543,12 @@ def t_narrow_counter(ti):
     return entry("stmt/narrow-counter", prog([func("f", "int", [("a", ti)], body)]), (ti,))
 
 
-def stmt_family(tier, rnd):
+BITS = {"x86_64": (32, 64), "arm": (32, 32), "riscv": (32, 32), "msp430": (16, 32)}     # (int, long) widths
+
+
+def stmt_family(tier, rnd, march="x86_64"):
     q = tier == "quick"
+    int_bits, long_bits = BITS[march]
     out = []
     ints = TYPES
     pick = (lambda xs, n: xs[:n]) if q else (lambda xs, n: xs)
@@ -559,7 +563,10 @@ def stmt_family(tier, rnd):
         out.append(t_dowhile(ti, False))
         out.append(t_dowhile(ti, True))
         out.append(t_dowhile_break(ti))
-    for tc, cases in pick([("int", [0, 1, 2, 7]), ("long", [0, 1, 2, 4294967296]), ("char", [0, 1, 2, -1]), ("uint", [0, 1, 2, 4000000000]),
+    # case constants must be representable in the promoted type of the controlling expression on the target
+    big_long = 4294967296 if long_bits == 64 else 2147483647
+    big_uint = 4000000000 if int_bits == 32 else 40000
+    for tc, cases in pick([("int", [0, 1, 2, 7]), ("long", [0, 1, 2, big_long]), ("char", [0, 1, 2, -1]), ("uint", [0, 1, 2, big_uint]),
                            ("uchar", [0, 1, 2, 200]), ("short", [-2, -1, 0, 5]), ("llong", [0, 1, 2, -4294967296]),
                            ("ulong", [0, 1, 2, 5]), ("ushort", [0, 1, 2, 65535]), ("schar", [-128, 1, 2, 127])], 5):
         out.append(t_switch(tc, cases))
@@ -671,7 +678,7 @@ def family(tier, seed, march="x86_64", primary=True):
         out += implicit_family(QUICK_CAST[14:])
         out += cond_family(QUICK_COND)
         out += deep_family(rnd, 40)
-        out += stmt_family("quick", rnd)
+        out += stmt_family("quick", rnd, march)
     else:
         if primary:
             out += bin_family(list(itertools.product(TYPES, TYPES)))
@@ -680,12 +687,12 @@ def family(tier, seed, march="x86_64", primary=True):
             out += implicit_family(list(itertools.product(TYPES, TYPES)))
             out += cond_family(list(itertools.product(TYPES, TYPES, TYPES)))
             out += deep_family(rnd, 300)
-            out += stmt_family("thorough", rnd)
+            out += stmt_family("thorough", rnd, march)
         else:
             out += bin_family(QUICK_PAIRS, BINOPS)
             out += un_family()
             out += cast_family(QUICK_CAST)
             out += cond_family(QUICK_COND)
             out += deep_family(rnd, 60)
-            out += stmt_family("quick", rnd)
+            out += stmt_family("quick", rnd, march)
     return out
